@@ -508,14 +508,15 @@ def check_C08(tier):
         agg.add(run_native(b, ['--prop', 'C02', '--seed', str(seed()), '--grid', 'strat', '--evts', '100', '--known', known_tsv('C02')], NCPU, 'C08-c02'), crash_prop='C08')
         b = compile_bin('history', ['checks/history.cc'], 'san', libs=['-lrapidcheck'], inc=[vlib.build_ref()])
         agg.add(run_native(b, ['--seed', str(seed()), '--cases', '300'], NCPU, 'C08-c07'), crash_prop='C08')
-        b = compile_bin('mdlcheck', ['checks/mdlcheck.cc'], 'san')
-        agg.add(run_native(b, ['--seed', str(seed()), '--cases', '400000'], NCPU, 'C08-c10'), crash_prop='C08')
+    # post-generation operations (C10 driver: op objects re-configured and re-used across events of different layouts) in both tiers
+    b = compile_bin('mdlcheck', ['checks/mdlcheck.cc'], 'san')
+    agg.add(run_native(b, ['--seed', str(seed()), '--cases', '400000' if thorough else '60000', '--breadcrumb'], NCPU, 'C08-c10'), crash_prop='C08')
     # semantic failures of the piggy-backed drivers belong to their own properties: keep only sanitizer findings here
     agg.failures = [f for f in agg.failures if '|crash:' in f['sig']]
     agg.known = {}
     # (b) fuzz_shoot
     fz = _fuzz('fuzz_shoot', ['fuzz/fuzz_shoot.cc'], 'C08', secs=(600 if thorough else 25), jobs=NCPU, agg=agg)
-    rule = ('cases = (configuration, steered tape, event reuse) from the C04/C05 drivers re-run against the ASan+UBSan+_GLIBCXX_ASSERTIONS build, plus the '
+    rule = ('cases = (configuration, steered tape, event reuse / pre-fill) from the C04/C05 drivers and (operation, event sequence) from the C10 driver re-run against the ASan+UBSan+_GLIBCXX_ASSERTIONS build, plus the '
             'structure-aware libFuzzer target fuzz_shoot (bytes -> category, name, level, mode, window, reuse pattern, MDL op, tape); oracle = sanitizers; '
             'distinct = (configuration, path signature, tail class) for the drivers + libFuzzer corpus units')
     return verdict(agg, tier, t0, rule, ['sanitizers as oracle: ASan, UBSan (-fno-sanitize-recover), _GLIBCXX_ASSERTIONS; leak detection off',
@@ -562,6 +563,13 @@ def replay(prop, path):
         return subprocess.run([b, '--replay', path], env=run_env()).returncode
     if prop == 'C17':
         return subprocess.run([_g4bin(), '--replay', path], env=run_env()).returncode
+    if prop == 'C08' and path.endswith('.json'):
+        # a sanitizer abort of one of the piggy-backed drivers: the breadcrumb written before the case is the reproducer
+        if j.get('driver') == 'mdlcheck':
+            b = compile_bin('mdlcheck', ['checks/mdlcheck.cc'], 'san')
+            return subprocess.run([b, '--replay', path, '--breadcrumb'], env=run_env()).returncode
+        b = compile_bin('gencheck', ['checks/gencheck.cc'], 'san', inc=[vlib.build_ref()])
+        return subprocess.run([b, '--prop', 'C04', '--replay', path], env=dict(run_env(), **_ga_env())).returncode
     if prop == 'C10':
         b = compile_bin('mdlcheck', ['checks/mdlcheck.cc'], 'fast')
         return subprocess.run([b, '--replay', path], env=run_env()).returncode
